@@ -199,7 +199,37 @@ func (w *World) typedSlashCollapse(fi *FuncInfo) slashVerdict {
 		}
 		return "", false
 	}
-	return slashCollapse(fi.Decl.Body, callee, resolve)
+	v := slashCollapse(fi.Decl.Body, callee, resolve)
+	if v.Collapses || !v.None {
+		return v
+	}
+	// delegation: the function hands its input to another gleece function that collapses
+	var deleg slashVerdict
+	found := false
+	ast.Inspect(fi.Decl.Body, func(n ast.Node) bool {
+		c, ok := n.(*ast.CallExpr)
+		if !ok || found {
+			return true
+		}
+		if other := w.fn(callee(c)); other != nil && other != fi && other.Decl.Body != nil {
+			if ov := w.typedSlashCollapseDepth(other, 1); ov.Collapses {
+				deleg, found = ov, true
+				deleg.Pos = c.Pos()
+			}
+		}
+		return true
+	})
+	if found {
+		return deleg
+	}
+	return v
+}
+
+func (w *World) typedSlashCollapseDepth(fi *FuncInfo, depth int) slashVerdict {
+	if depth > 2 {
+		return slashVerdict{None: true}
+	}
+	return w.typedSlashCollapse(fi)
 }
 
 // ruleSlashCollapse registers the obligation for one typed gleece function.
